@@ -43,5 +43,218 @@ theorem len_pairs2 (d : ℕ) :
   have := len_pairs2_aux d d (le_refl _)
   nlinarith
 
+theorem lin_lengths (p : LinParams ℝ) :
+    (((List.range p.t).length : ℝ) +
+      (((List.range p.t).flatMap fun i => (List.range p.d).map fun j => (i, j)).length : ℝ) +
+      (((List.range p.d).flatMap fun i => ((List.range p.d).filter (fun j => i ≤ j)).map fun j => (i, j)).length : ℝ))
+      = linCount p := by
+  rw [len_pairs1]
+  have h : (2 : ℝ) * (((List.range p.d).flatMap fun i => ((List.range p.d).filter (fun j => decide (i ≤ j))).map
+      fun j => (i, j)).length : ℝ) = ((p.d * (p.d + 1) : ℕ) : ℝ) := by exact_mod_cast len_pairs2 p.d
+  simp only [linCount, nat, List.length_range]
+  push_cast at h ⊢
+  linarith
+
+/-! ### LinearRegression, whole plan -/
+
+theorem linreg_privloss (p : LinParams ℝ) (hε : 0 ≤ p.eps) (hd : 0 < p.d) (ht : 0 < p.t)
+    (hb : ∀ j, nth p.lo j ≤ nth p.hi j) (hby : ∀ i, nth p.ylo i ≤ nth p.yhi i) (h1d : p.y1d = true → p.t = 1)
+    (pre post : DS ℝ) (r r' : Rec ℝ) (hn : p.n = pre.length + 1 + post.length) :
+    lossLe (pre ++ r :: post) (pre ++ r' :: post) (linPlan p) p.eps := by
+  have hcnt : 0 < linCount p := by
+    have : (0 : ℝ) < ((p.t + p.t * p.d : ℕ) : ℝ) := by exact_mod_cast (by positivity : 0 < p.t + p.t * p.d)
+    have : (0 : ℝ) ≤ ((p.d * (p.d + 1) : ℕ) : ℝ) / ((2 : ℕ) : ℝ) := by positivity
+    simp only [linCount, nat]; linarith
+  have hs0 : (0 : ℝ) < 1 / ((p.d + 1 : ℕ) : ℝ) := by positivity
+  have hs1 : 1 / ((p.d + 1 : ℕ) : ℝ) ≤ 1 := by
+    rw [div_le_one (by positivity)]; push_cast; linarith [(Nat.cast_nonneg p.d : (0 : ℝ) ≤ p.d)]
+  unfold linPlan
+  split
+  · simp only [nat]
+    refine lossLe_mono _ _ _ (le_of_eq ?_)
+      (lossLe_bind _ _ _ _ (meanAxis0_loss pre post r r' _ p.lo p.hi p.n p.d (by positivity) hd hb hn) fun xo =>
+        lossLe_bind _ _ _ _ (linMeanY_loss p pre post r r' _ (by positivity) h1d hby ht hn) fun yo =>
+          lossLe_map _ _ _ _ (linCoefs_loss p pre post r r' (p.eps * (1 - 1 / ((p.d + 1 : ℕ) : ℝ)))
+            (mul_nonneg hε (by linarith)) xo yo hcnt hb hby))
+    rw [lin_lengths, div_mul_cancel₀ _ hcnt.ne']
+    ring
+  · refine lossLe_mono _ _ _ (le_of_eq ?_)
+      (lossLe_map _ _ _ _ (linCoefs_loss p pre post r r' (p.eps * (1 - 0)) (by simpa using hε) [] [] hcnt hb hby))
+    rw [lin_lengths, div_mul_cancel₀ _ hcnt.ne']
+    ring
+
+/-! ### StandardScaler -/
+
+/-- StandardScaler: ε/2 over the `d` column means + ε/2 over the `d` column variances.  The list-level variance
+sensitivity (`|var D_j − var D'_j| ≤ ((u-l)/n)²(n-1)`) enters as the hypothesis `hvar`; its algebraic core is
+`var_core` (the tools' `var_sens` of C07 discharges it). -/
+theorem scaler_privloss (p : ScalerParams ℝ) (hε : 0 ≤ p.eps) (hd : 0 < p.d)
+    (hb : ∀ j, nth p.lo j ≤ nth p.hi j) (pre post : DS ℝ) (r r' : Rec ℝ) (hn : p.n = pre.length + 1 + post.length)
+    (hvar : ∀ j, |varL ((pre ++ r :: post).map (feat p.lo p.hi j)) - varL ((pre ++ r' :: post).map (feat p.lo p.hi j))|
+        ≤ 1 * (((nth p.hi j - nth p.lo j) / p.n) * ((nth p.hi j - nth p.lo j) / p.n) * ((p.n : ℝ) - 1))) :
+    lossLe (pre ++ r :: post) (pre ++ r' :: post) (scalerPlan p) p.eps := by
+  have hN : (1 : ℝ) ≤ p.n := by rw [hn]; push_cast; linarith [(Nat.cast_nonneg pre.length : (0:ℝ) ≤ _), (Nat.cast_nonneg post.length : (0:ℝ) ≤ _)]
+  have hdr : (p.d : ℝ) ≠ 0 := by exact_mod_cast hd.ne'
+  unfold scalerPlan
+  split
+  · exact hε
+  · by_cases hs : p.withStd = true
+    · simp only [hs, if_true, nat]
+      have hv : lossLe (pre ++ r :: post) (pre ++ r' :: post) (varAxis0 (p.eps / ((2 : ℕ) : ℝ)) p.lo p.hi p.n p.d)
+          (p.eps / ((2 : ℕ) : ℝ)) := by
+        have := lossLe_forList_const (pre ++ r :: post) (pre ++ r' :: post) (List.range p.d)
+          (fun j => one (varCall (p.eps / ((2 : ℕ) : ℝ) / (p.d : ℝ)) (nth p.lo j) (nth p.hi j) p.n)
+            (fun D => varL (D.map (feat p.lo p.hi j))))
+          (p.eps / ((2 : ℕ) : ℝ) / p.d * 1) (fun j _ => by
+            have := lossLe_one (pre ++ r :: post) (pre ++ r' :: post)
+              (varCall (p.eps / ((2 : ℕ) : ℝ) / (p.d : ℝ)) (nth p.lo j) (nth p.hi j) p.n)
+              (fun D => varL (D.map (feat p.lo p.hi j))) 1 (by norm_num) (le_refl _)
+              (by simp only [varCall]; positivity)
+              (by simp only [varCall]; exact mul_nonneg (mul_self_nonneg _) (by linarith))
+              (by simpa [varCall] using hvar j)
+            simpa [varCall] using this)
+        refine lossLe_mono _ _ _ (le_of_eq ?_) this
+        simp only [List.length_range]; field_simp
+      refine lossLe_mono _ _ _ (le_of_eq ?_)
+        (lossLe_bind _ _ _ _ (meanAxis0_loss pre post r r' _ p.lo p.hi p.n p.d (by positivity) hd hb hn) fun ms =>
+          lossLe_map _ _ _ _ hv)
+      push_cast; ring
+    · simp only [hs, if_false]
+      have := lossLe_bind _ _ _ (fun ms => (Plan.release (ms, []) : Plan (DS ℝ) ℝ (List ℝ × List ℝ)))
+        (meanAxis0_loss pre post r r' p.eps p.lo p.hi p.n p.d hε hd hb hn) (fun _ => lossLe_release _ _ _)
+      simpa using this
+
+/-! ### KMeans with the coded iteration count and split -/
+
+noncomputable instance : Cbrt ℝ := ⟨fun x => x ^ ((1 : ℝ) / 3)⟩
+
+theorem kmC_nonneg (d : ℕ) : (0 : ℝ) ≤ kmC d := by
+  unfold kmC; exact Real.rpow_nonneg (by unfold nat rho nat; positivity) _
+
+theorem kmIters_pos (p : KmParams ℝ) : 2 ≤ kmIters p := by
+  unfold kmIters
+  simp only [pmax_eq, nat, transc_floor]
+  have : (2 : ℤ) ≤ ⌊max (pmin (p.eps / Transc.sqrt (((500 * p.k ^ 3 : ℕ) : ℝ) / ((p.n ^ 2 : ℕ) : ℝ) *
+      Transc.pow ((p.d : ℝ) + kmC p.d) ((3 : ℕ) : ℝ))) ((7 : ℕ) : ℝ)) ((2 : ℕ) : ℝ)⌋ :=
+    Int.le_floor.mpr (by push_cast; exact le_max_right _ _)
+  omega
+
+/-- KMeans as coded: iterations · (ε₀ + d·ε_i) = ε, a record touches ≤ 2 clusters per iteration ⇒ loss ≤ 2ε -/
+theorem kmeans_privloss (p : KmParams ℝ) (hε : 0 ≤ p.eps) (hd : 0 < p.d) (hb : ∀ j, nth p.lo j ≤ nth p.hi j)
+    (pre post : DS ℝ) (r r' : Rec ℝ) :
+    lossLe (pre ++ r :: post) (pre ++ r' :: post) (kmPlan p) (2 * p.eps) := by
+  have hit : 0 < kmIters p := by have := kmIters_pos p; omega
+  have hc := kmC_nonneg p.d
+  have hpos : (0 : ℝ) < (p.d : ℝ) + kmC p.d := by
+    have : (0 : ℝ) < p.d := by exact_mod_cast hd
+    linarith
+  have hnorm : 0 ≤ p.eps / (kmIters p : ℝ) / ((p.d : ℝ) + kmC p.d) := by positivity
+  unfold kmPlan kmPlanWith
+  simp only [kmSplit]
+  refine lossLe_mono _ _ _ (le_of_eq ?_)
+    (kmeans_privloss_with p _ _ (mul_nonneg hc hnorm) (by simpa using hnorm) hb pre post r r' (kmIters p) p.init)
+  have := kmeans_split p.eps (kmC p.d) p.d (kmIters p) hd hit hc
+  simp only at this
+  linarith
+
+theorem kmeans_privloss_stay (p : KmParams ℝ) (hε : 0 ≤ p.eps) (hd : 0 < p.d) (hb : ∀ j, nth p.lo j ≤ nth p.hi j)
+    (pre post : DS ℝ) (r r' : Rec ℝ) (hsame : ∀ cs, assign p.lo p.hi cs r = assign p.lo p.hi cs r') :
+    lossLe (pre ++ r :: post) (pre ++ r' :: post) (kmPlan p) p.eps := by
+  have hit : 0 < kmIters p := by have := kmIters_pos p; omega
+  have hc := kmC_nonneg p.d
+  have hpos : (0 : ℝ) < (p.d : ℝ) + kmC p.d := by
+    have : (0 : ℝ) < p.d := by exact_mod_cast hd
+    linarith
+  have hnorm : 0 ≤ p.eps / (kmIters p : ℝ) / ((p.d : ℝ) + kmC p.d) := by positivity
+  unfold kmPlan kmPlanWith
+  simp only [kmSplit]
+  refine lossLe_mono _ _ _ (le_of_eq ?_)
+    (kmeans_privloss_same p _ _ (mul_nonneg hc hnorm) (by simpa using hnorm) hb pre post r r' hsame (kmIters p) p.init)
+  have := kmeans_split p.eps (kmC p.d) p.d (kmIters p) hd hit hc
+  simp only at this
+  linarith
+
+/-! ### PCA / covariance_eig, relative to the cited facts -/
+
+theorem sum_map_mul_left' (l : List Nat) (a : ℝ) (f : Nat → ℝ) : (l.map fun i => a * f i).sum = a * (l.map f).sum := by
+  induction l with
+  | nil => simp
+  | cons c cs ih => simp only [List.map_cons, List.sum_cons, ih]; ring
+
+/-- PCA: `hEig1`/`hEigSum` = the cited eigenvalue perturbation bound (each eigenvalue of XᵀX/norm² moves by ≤ 2 and
+all of them by ≤ 2 in total under one replaced row of norm ≤ norm); `hBing` = the input of every Bingham call moves by
+at most the mechanism's sensitivity 1 (spectral norm; the abstract scalar `bing` stands for the matrix). -/
+theorem pca_privloss (p : PcaParams ℝ) (eig bing : DS ℝ → List ℝ → Nat → ℝ) (hε : 0 ≤ p.eps) (hd : 0 < p.d)
+    (hk : p.k ≤ p.d) (hb : ∀ j, nth p.lo j ≤ nth p.hi j) (pre post : DS ℝ) (r r' : Rec ℝ)
+    (hn : p.n = pre.length + 1 + post.length)
+    (hEig1 : ∀ mean i, |eig (pre ++ r :: post) mean i - eig (pre ++ r' :: post) mean i| ≤ 2)
+    (hEigSum : ∀ mean, ((List.range p.d).map fun i =>
+        |eig (pre ++ r :: post) mean i - eig (pre ++ r' :: post) mean i|).sum ≤ 2)
+    (hBing : ∀ mean i, |bing (pre ++ r :: post) mean i - bing (pre ++ r' :: post) mean i| ≤ 1) :
+    lossLe (pre ++ r :: post) (pre ++ r' :: post) (pcaPlan p eig bing) p.eps := by
+  have key : ∀ (εc : ℝ) (mean : List ℝ), 0 ≤ εc →
+      lossLe (pre ++ r :: post) (pre ++ r' :: post)
+        ((forList (List.range p.d) fun i =>
+            one ⟨"LaplaceBoundedDomain", εc / nat (p.k + (if p.k == p.d then 0 else 1)), 0, nat 2, 0, p.inf, .osCsprng⟩
+              (fun D => eig D mean i)).bind fun ev =>
+          (forList (List.range (min p.k (p.d - 1))) fun i =>
+            one ⟨"Bingham", εc / nat (p.k + (if p.k == p.d then 0 else 1)), 0, 1, -p.inf, p.inf, .osCsprng⟩
+              (fun D => bing D mean i)).bind fun _ => (Plan.release (mean, ev) : Plan (DS ℝ) ℝ (List ℝ × List ℝ))) εc := by
+    intro εc mean hεc
+    set share := εc / nat (p.k + (if p.k == p.d then 0 else 1)) with hshare
+    have hsh : 0 ≤ share := by simp only [hshare, nat]; positivity
+    have hE := lossLe_forList (pre ++ r :: post) (pre ++ r' :: post) (List.range p.d)
+      (fun i => one ⟨"LaplaceBoundedDomain", share, 0, nat 2, 0, p.inf, .osCsprng⟩ (fun D => eig D mean i))
+      (fun i => share * (|eig (pre ++ r :: post) mean i - eig (pre ++ r' :: post) mean i| / 2)) (fun i _ =>
+        lossLe_one _ _ _ _ _ (by positivity) (by linarith [hEig1 mean i]) hsh (by simp [nat]) (by
+          simp only [nat]; push_cast; linarith))
+    have hB := lossLe_forList_const (pre ++ r :: post) (pre ++ r' :: post) (List.range (min p.k (p.d - 1)))
+      (fun i => one ⟨"Bingham", share, 0, 1, -p.inf, p.inf, .osCsprng⟩ (fun D => bing D mean i)) (share * 1)
+      (fun i _ => lossLe_one _ _ _ _ 1 (by norm_num) (le_refl _) hsh (by norm_num) (by simpa using hBing mean i))
+    refine lossLe_mono _ _ _ ?_ (lossLe_bind _ _ _ _ hE fun ev => lossLe_map _ _ _ _ hB)
+    have h1 : ((List.range p.d).map fun i =>
+        share * (|eig (pre ++ r :: post) mean i - eig (pre ++ r' :: post) mean i| / 2)).sum ≤ share := by
+      have : ((List.range p.d).map fun i =>
+          share * (|eig (pre ++ r :: post) mean i - eig (pre ++ r' :: post) mean i| / 2)).sum =
+          share / 2 * ((List.range p.d).map fun i =>
+            |eig (pre ++ r :: post) mean i - eig (pre ++ r' :: post) mean i|).sum := by
+        rw [← sum_map_mul_left']; congr 1; apply List.map_congr_left; intro i _; ring
+      rw [this]
+      nlinarith [hEigSum mean]
+    have h2 := pca_split εc p.k p.d hd hk
+    simp only [List.length_range] at h2 ⊢
+    have h3 : share = εc / ((p.k + (if p.k = p.d then 0 else 1) : ℕ) : ℝ) := by
+      simp only [hshare, nat, beq_iff_eq]
+    rw [← h3] at h2
+    linarith
+  unfold pcaPlan
+  simp only []
+  split
+  · exact key p.eps [] hε
+  · have hm := meanAxis0_loss pre post r r' (p.eps / nat 2) p.lo p.hi p.n p.d (by simp only [nat]; positivity) hd hb hn
+    refine lossLe_mono _ _ _ (le_of_eq ?_)
+      (lossLe_bind _ _ _ _ hm fun mean => key (p.eps / nat 2) mean (by simp only [nat]; positivity))
+    simp only [nat]; push_cast; ring
+
+/-! ### forest: disjoint row subsets, leaf × class counts -/
+
+/-- the trees other than the one holding the replaced row see the same rows -/
+theorem rowsOf_other (p : ForestParams ℝ) (ti : Nat) (pre post : DS ℝ) (r r' : Rec ℝ)
+    (h : p.treeOf.getD pre.length 0 ≠ ti) :
+    rowsOf p ti (pre ++ r :: post) = rowsOf p ti (pre ++ r' :: post) := by
+  unfold rowsOf
+  simp only [List.zipIdx_append, List.zipIdx_cons, List.filter_append, List.filter_cons, zero_add, beq_iff_eq]
+  simp only [List.getD_eq_getElem?_getD] at h
+  simp [h]
+
+/-- within the tree that holds it, a replaced record changes the count of at most two (leaf, class) cells, each by one:
+the cell it leaves and the cell it joins (instance of `count_change` with the grouping `q ↦ code (leaf q) (class q)`) -/
+theorem leaf_class_count_change (leaf : Rec ℝ → Nat) (code : Nat → Nat → Nat) (cell : Nat) (pre post : DS ℝ)
+    (r r' : Rec ℝ) :
+    |(((grp (fun q => code (leaf q) q.y) cell (pre ++ r :: post)).length : Nat) : ℝ) -
+        (((grp (fun q => code (leaf q) q.y) cell (pre ++ r' :: post)).length : Nat) : ℝ)|
+      ≤ (if cell = code (leaf r) r.y ∨ cell = code (leaf r') r'.y then 1 else 0) :=
+  (count_change _ cell pre post r r').1
+
 end PM
 end DPL
